@@ -92,6 +92,41 @@ fn check_case(case: &Value, idx: usize) -> Option<Value> {
             }
         }
     }
+    // 2c. a rolling appender that does roll: the roller is handed the path the appender works with - the expanded text -
+    // and that is the file it archives (EnvExpand.tla: a text is expanded once; what came out is a name, not a text with
+    // references).  Limit 1 byte, one slot: after two records the slot holds the second one and nothing else is there
+    if idx % 2 == 0 {
+        use log4rs::append::Append;
+        let s = Scratch::new("env");
+        let p = format!("{}/q-{}.log", s.path().display(), input);
+        let arch = format!("{}/zz-arch.{{}}.log", s.path().display());
+        let built = catch(|| -> anyhow::Result<log4rs::append::rolling_file::RollingFileAppender> {
+            let roller = FixedWindowRoller::builder().build(&arch, 1)?;
+            let policy = CompoundPolicy::new(Box::new(SizeTrigger::new(1)), Box::new(roller));
+            Ok(log4rs::append::rolling_file::RollingFileAppender::builder()
+                .encoder(Box::new(log4rs::encode::pattern::PatternEncoder::new("{m}")))
+                .build(&p, Box::new(policy))?)
+        });
+        match built {
+            Err(pn) => return Some(json!({"site": "RollingFileAppender that rolls", "what": "panic", "error": pn})),
+            Ok(Err(e)) => return Some(json!({"site": "RollingFileAppender that rolls", "what": "build failed", "error": e.to_string()})),
+            Ok(Ok(a)) => {
+                for m in ["first", "second"] {
+                    match catch(|| a.append(&log::Record::builder().level(log::Level::Info).args(format_args!("{}", m)).build())) {
+                        Ok(Ok(())) => {}
+                        other => return Some(json!({"site": "RollingFileAppender that rolls", "what": "append", "record": m,
+                                                    "result": format!("{:?}", other.map(|r| r.map_err(|e| e.to_string())))})),
+                    }
+                }
+                let got: Vec<(String, String)> = snapshot(s.path(), false, false).into_iter().map(|(k, v)| (k, String::from_utf8_lossy(&v).to_string())).collect();
+                let want = vec![("zz-arch.0.log".to_string(), "second".to_string())];
+                if got != want {
+                    return Some(json!({"site": "RollingFileAppender that rolls", "what": "files after two records and two rolls", "active": lands(format!("q-{}.log", expect)),
+                                       "expected": want, "actual": got}));
+                }
+            }
+        }
+    }
     // 2b. file appender described by a configuration value
     {
         let s = Scratch::new("env");
